@@ -25,6 +25,7 @@ import (
 	"sort"
 	"strings"
 	"sync"
+	"sync/atomic"
 	"time"
 
 	"google.golang.org/grpc/codes"
@@ -53,7 +54,15 @@ func genC05Input(seed int64, idx int) *scenario {
 	nColl := 1 + rnd.Intn(2)
 	perm := rnd.Perm(sc.NSrcP)
 	variant := idx % 3
+	if idx == 3 || (idx > 3 && idx%4 == 3) {
+		variant = 3
+	}
 	switch {
+	case variant == 3:
+		// twelve source pchannels; the shards sit on channels whose names are prefixes of one another (dml_1 / dml_10,
+		// dml_1 / dml_11): a checkpoint must be looked up under exactly its own channel's name
+		sc.NSrcP = 12
+		sc.Colls = []collDef{{DB: "default", Name: "c05_a", PChannels: []int{10, 1}}, {DB: "default", Name: "c05_b", PChannels: []int{1, 11}}}
 	case variant == 1:
 		// two collections SHARE a source pchannel (two streams of one topic with their own checkpoints)
 		sc.Colls = []collDef{{DB: "default", Name: "c05_a", PChannels: perm[:2]}, {DB: "default", Name: "c05_b", PChannels: perm[:1+rnd.Intn(2)]}}
@@ -158,6 +167,7 @@ func runC05Case(c *c05Case, name string) *c05Result {
 	f := c.Fault
 	// ---- fault wiring ----
 	var fmu sync.Mutex
+	var pauseWriteFailed atomic.Bool
 	repN, putN := 0, 0
 	seenPack := map[int64]bool{}
 	var nackUID int64 = -1
@@ -192,7 +202,7 @@ func runC05Case(c *c05Case, name string) *c05Result {
 			}
 			return nil
 		}
-		if f.Kind == "nack-pack" && call.Replicate != nil {
+		if (f.Kind == "nack-pack" || f.Kind == "nack-pack-pause-write-fails") && call.Replicate != nil {
 			// the N-th distinct pack that carries rows is rejected on every attempt the service makes for it (three,
 			// the retry budget of the rig's configuration); every other pack - also the next one of the same batch - is
 			// accepted
@@ -214,6 +224,10 @@ func runC05Case(c *c05Case, name string) *c05Result {
 					}
 				}
 				reject := nackUID == first && nackCnt < 3
+				if f.Kind == "nack-pack-pause-write-fails" {
+					// rejected until the service has given up on it and tried to record the pause
+					reject = nackUID == first && !pauseWriteFailed.Load()
+				}
 				if reject {
 					nackCnt++
 				}
@@ -249,6 +263,16 @@ func runC05Case(c *c05Case, name string) *c05Result {
 		}
 	}()
 	s.setStoreDecide(func(ev sysboot.StoreEvent) sysboot.StoreDecision {
+		if f.Kind == "nack-pack-pause-write-fails" && ev.Kind == "task_info" && ev.Op == "put" && ev.Phase == "before" && ev.State == 2 {
+			// the write that records the task as Paused is refused (a transient failure of the task table only)
+			fmu.Lock()
+			armed := nackCnt > 0
+			fmu.Unlock()
+			if armed {
+				pauseWriteFailed.Store(true)
+				return sysboot.StoreDecision{Fail: "injected store failure of the pause write"}
+			}
+		}
 		if ev.Kind != "task_position" || ev.Op != "put" || ev.Coll <= 0 {
 			return sysboot.StoreDecision{}
 		}
@@ -384,6 +408,15 @@ func runC05Case(c *c05Case, name string) *c05Result {
 	if skewTopic != "" {
 		time.Sleep(300 * time.Millisecond)
 		s.w.Broker.SetGate(skewTopic, 0)
+	}
+	if f.Kind == "nack-pack-pause-write-fails" {
+		// the stored task record still says Running (the pause could not be recorded): the operator's way out is a
+		// restart of the service, which reloads the task as Running and resumes from the checkpoints
+		for deadline := time.Now().Add(20 * time.Second); time.Now().Before(deadline) && !pauseWriteFailed.Load() && s.childAlive(); time.Sleep(20 * time.Millisecond) {
+		}
+		time.Sleep(300 * time.Millisecond)
+		res.faultHit = res.faultHit && pauseWriteFailed.Load()
+		s.killChild("restart after a rejected pack whose pause could not be recorded")
 	}
 	// ---- recovery: restart a dead child, resume paused tasks, until everything is acked or no progress ----
 	var missing []int64
@@ -781,14 +814,14 @@ func c05Oracle(rs *runState, res *c05Result, missing []int64) {
 
 func runC05(tier string) *vf.Run {
 	run := vf.NewRun("C05", tier, "fault_enumeration")
-	run.Rule = "input = 1-2 collections x 1-3 shards (variant 0: one stream per source pchannel; variant 1: two collections sharing a source pchannel; variant 2: batcher count 6 / 250 ms / MaxMsgSize 1 KB with small packs followed by an oversized pack of the same stream; all downstream shards on ONE downstream channel; in variant 1 the second collection is dropped upstream three rounds before the end and a marker collection is created behind the drop), 6-11 rounds of inserts/deletes (bursts inside one tick interval) + ticks, batcher count 1 or 3; a fault-free run of the input counts the acks K and checkpoint Puts P; then the same input is re-run with one fault at an enumerated step: SIGKILL with the k-th ReplicateMessage applied but its reply held, SIGKILL just before / after the n-th checkpoint Put, k-th ReplicateMessage rejected once (absorbed by the service's retry) or the n-th pack that carries rows rejected on every attempt while the next pack of its batch is accepted (also aimed at the first of two small packs that an oversized pack of the same stream flushes in one batch), n-th checkpoint Put failing, pause+resume, and a skewed variant (one stream read slowly through a consumer gate, then killed). Quick: a fixed subset of the steps of three inputs (one per variant); thorough: every k and n of nine inputs. Non-trivial = the fault was delivered at the intended step and the run ended with all rows acked or a verdict; distinct by (input, fault kind, step)."
+	run.Rule = "input = 1-2 collections x 1-3 shards (variant 0: one stream per source pchannel; variant 1: two collections sharing a source pchannel; variant 2: batcher count 6 / 250 ms / MaxMsgSize 1 KB with small packs followed by an oversized pack of the same stream; all downstream shards on ONE downstream channel; in variant 1 the second collection is dropped upstream three rounds before the end and a marker collection is created behind the drop), 6-11 rounds of inserts/deletes (bursts inside one tick interval) + ticks, batcher count 1 or 3; a fault-free run of the input counts the acks K and checkpoint Puts P; then the same input is re-run with one fault at an enumerated step: SIGKILL with the k-th ReplicateMessage applied but its reply held, SIGKILL just before / after the n-th checkpoint Put, k-th ReplicateMessage rejected once (absorbed by the service's retry) or the n-th pack that carries rows rejected on every attempt while the next pack of its batch is accepted (also aimed at the first of two small packs that an oversized pack of the same stream flushes in one batch), n-th checkpoint Put failing, pause+resume, and a skewed variant (one stream read slowly through a consumer gate, then killed). a pack that carries rows rejected on every attempt while the write that records the task as Paused fails too, followed by a restart of the service (the stored record still says Running), and a fourth input variant with twelve source channels whose shards sit on channels with prefix-related names (dml_1 / dml_10 / dml_11). Quick: a fixed subset of the steps of four inputs (one per variant); thorough: every k and n of twelve inputs. Non-trivial = the fault was delivered at the intended step and the run ended with all rows acked or a verdict; distinct by (input, fault kind, step)."
 	run.Assumptions = []string{
 		"the fake downstream acks a ReplicateMessage when it ACCEPTS it (logged before replying); the child announces every store call to the supervisor BEFORE performing it, so 'checkpoint after ack' is judged on one clock without observation lag",
 		"message ids are unique over all topics (memq allocates them from one counter), so a checkpoint position identifies its stream's messages",
 		"frozen clause: judged in runs without a process death once the DropCollection of the dropped collection and the CreateCollection of the marker created behind it have both been seen downstream (one event loop handles them in that order): by then every checkpoint entry of the dropped collection must have been persisted as dropped; rows of a collection dropped upstream are not owed to the downstream any more",
 		"liveness is restated as bounded progress: after the fault the supervisor restarts a dead child, resumes paused tasks and keeps ticking; a row counts as LOST only when a later row of the same stream was acked in the last incarnation; otherwise the case is inconclusive",
 	}
-	nInputs := run.Pick(3, 9)
+	nInputs := run.Pick(4, 12)
 	if os.Getenv("C05_PART") == "op" { // debug: the operation-channel part alone
 		runC05op(run)
 		return run
@@ -888,6 +921,19 @@ func runC05(tier string) *vf.Run {
 			}
 		}
 		cases = append(cases, &c05Case{Input: i, Sc: sc, Fault: c05Fault{Kind: "pause-resume", Round: 3}})
+		{
+			// a pack that carries rows is rejected on every attempt AND the write that records the pause fails
+			D := bases[i].dataAcks
+			ns := []int{D / 3, D / 2}
+			if run.Thorough() {
+				ns = []int{2, D / 4, D / 3, D / 2, 2 * D / 3}
+			}
+			for _, n := range ns {
+				if n >= 1 && n <= D {
+					cases = append(cases, &c05Case{Input: i, Sc: sc, Fault: c05Fault{Kind: "nack-pack-pause-write-fails", N: n}})
+				}
+			}
+		}
 		for _, k := range skews {
 			cases = append(cases, &c05Case{Input: i, Sc: sc, Fault: c05Fault{Kind: "skew-kill", N: max(3, k), Round: 4}})
 		}
